@@ -58,17 +58,39 @@ func (it *Interp) makeObs(b *Backend, j int) {
 	} else {
 		o = ObsInsts[os.Inst].New(b.evT[os.Ev])
 	}
-	if len(forList) > 0 {
-		o.For(compsOf(forList))
+	split := func(l []int, f func([]ecs.Comp)) {
+		if len(l) == 0 {
+			return
+		}
+		if os.Order == 3 {
+			for _, c := range l {
+				f(compsOf([]int{c}))
+			}
+			return
+		}
+		f(compsOf(l))
 	}
-	if len(os.With) > 0 {
-		o.With(compsOf(os.With))
+	doFor := func() { split(forList, o.For) }
+	doWith := func() { split(os.With, o.With) }
+	doExcl := func() {
+		split(os.Without, o.Without)
+		if os.Exclusive {
+			o.Exclusive()
+		}
 	}
-	if len(os.Without) > 0 {
-		o.Without(compsOf(os.Without))
-	}
-	if os.Exclusive {
-		o.Exclusive()
+	switch os.Order {
+	case 1:
+		doExcl()
+		doWith()
+		doFor()
+	case 2:
+		doWith()
+		doFor()
+		doExcl()
+	default:
+		doFor()
+		doWith()
+		doExcl()
 	}
 	typed := os.Inst >= 0 && !b.Pol.ForceUnsafe
 	o.Do(func(e ecs.Entity, p Ptrs) { it.onEvent(b, j, e, p, typed) })
